@@ -79,6 +79,12 @@ def cases(tier, seed):
         else:
             c = layout_gen.gdefcurs_font(rng)
         sources.append(("ufo", {"kind": "ufo", "ufo": c["ufo"]}, f"gen-layout-{k}"))
+    for k in range(8 if tier == "quick" else 40):
+        # more mark-class conflict graphs (edges plus isolated vertices) for the lookup grouping, each under many hash seeds
+        c = layout_gen.mark_conflict_font(rng)
+        c["ufo"].setdefault("lib", {})["com.github.googlei18n.ufo2ft.featureWriters"] = [
+            {"class": "MarkFeatureWriter", "options": {"groupMarkClasses": True}}]
+        sources.append(("ufo", {"kind": "ufo", "ufo": c["ufo"]}, f"gen-layout-mc{k}"))
     for k in range(2 if tier == "quick" else 10):
         # filters chosen through the UFO lib (PropagateAnchors on ligature marks with curved components): compared across
         # UFO libraries and storage
